@@ -83,7 +83,10 @@ pub const FAMILIES: [&str; 20] = [
     "few distinct points repeated",
     "curler inside the drift volume with a gap in its hits",
 ];
-pub const PITCHES: [f64; 27] = [0.0, 5e-324, -5e-324, 1e-310, -1e-310, 1e-300, 1e-17, -1e-17, 1e-16, 2.2e-16, -2.2e-16, 1e-15, 1e-12, 1e-9, 1e-6, 1e-4, 1e-3, 1e-2, 0.1, -0.1, 0.5, 1.0, -1.0, 3.0, 10.0, 100.0, -100.0];
+// (the second line: values on either side of powers of f64::EPSILON - 4.9e-32, 2.2e-16, 1.49e-8, 6.06e-6, 1.22e-4 - where a
+// guard written on h^2, h^3 or sqrt(h) instead of |h| would sit)
+pub const PITCHES: [f64; 45] = [0.0, 5e-324, -5e-324, 1e-310, -1e-310, 1e-300, 1e-17, -1e-17, 1e-16, 2.2e-16, -2.2e-16, 1e-15, 1e-12, 1e-9, 1e-6, 1e-4, 1e-3, 1e-2, 0.1, -0.1, 0.5, 1.0, -1.0, 3.0, 10.0, 100.0, -100.0,
+    4e-32, 6e-32, 1e-31, 2e-9, 5e-9, -5e-9, 1e-8, 1.4e-8, -1.4e-8, 1.6e-8, 3e-8, 1e-7, 5e-6, 7e-6, -7e-6, 1e-5, 1.1e-4, 1.3e-4];
 
 /// n points (n >= 2) of the given family, all with r in [0.05, 0.25], |z| <= 1.3.
 pub fn family(rng: &mut Rng, fam: usize, n: usize) -> Vec<SpacePoint> {
